@@ -1,6 +1,6 @@
 (* C04 — the registry is a faithful record of what the network presented and reported. *)
 From Coq Require Import List NArith ZArith Bool String.
-From AMS Require Import Models Codec GatewayFacts GatewayInv GatewaySteps GatewayReg.
+From AMS Require Import Models Codec GatewayFacts GatewayInv GatewaySteps GatewayReg GatewayRegSpec.
 Import ListNotations.
 Local Open Scope Z_scope.
 
@@ -147,6 +147,67 @@ Theorem C04_untouched_history :
     dget Z.eqb (w_nodes (run_ops bat vlt now w ops)) k = dget Z.eqb (w_nodes w) k.
 Proof. exact untouched_history. Qed.
 Print Assumptions C04_untouched_history.
+
+(* ---------- END TO END for one listen step, under every protocol ---------- *)
+
+(* the registry after a received set line — whatever the protocol (1.4 .. 2.2, the 2.x wrapper and
+   marker layers included), the version state, the reboot flag, the fault stream: the value is
+   recorded under (child, type) iff node and child are registered, and nothing else changes *)
+Theorem C04_set_step :
+  forall bat vlt now line s m,
+    decode (proto_of (s_w s)) line = DecOk m -> m_cmd m = 1 ->
+    w_nodes (s_w (snd (listen_step bat vlt now line s))) =
+    match dget Z.eqb (w_nodes (s_w s)) (m_node m) with
+    | None => w_nodes (s_w s)
+    | Some n =>
+        if dmem Z.eqb (n_children n) (m_child m)
+        then dset Z.eqb (w_nodes (s_w s)) (m_node m) (set_child_value n (m_child m) (m_type m) (m_payload m))
+        else w_nodes (s_w s)
+    end.
+Proof. exact set_step_nodes. Qed.
+Print Assumptions C04_set_step.
+
+Theorem C04_req_step :
+  forall bat vlt now line s m,
+    decode (proto_of (s_w s)) line = DecOk m -> m_cmd m = 2 ->
+    w_nodes (s_w (snd (listen_step bat vlt now line s))) = w_nodes (s_w s).
+Proof. exact req_step_nodes. Qed.
+Print Assumptions C04_req_step.
+
+Theorem C04_child_presentation_step :
+  forall bat vlt now line s m,
+    decode (proto_of (s_w s)) line = DecOk m -> m_cmd m = 0 -> m_child m <> 255 ->
+    w_nodes (s_w (snd (listen_step bat vlt now line s))) =
+    match dget Z.eqb (w_nodes (s_w s)) (m_node m) with
+    | None => w_nodes (s_w s)
+    | Some n =>
+        dset Z.eqb (w_nodes (s_w s)) (m_node m)
+          {| n_id := n_id n; n_type := n_type n; n_ver := n_ver n;
+             n_children := dset Z.eqb (n_children n) (m_child m)
+                {| c_id := m_child m; c_type := m_type m; c_desc := m_payload m; c_values := [] |};
+             n_sketch_name := n_sketch_name n; n_sketch_version := n_sketch_version n;
+             n_battery := n_battery n; n_heartbeat := n_heartbeat n;
+             n_reboot := n_reboot n; n_sleeping := n_sleeping n |}
+    end.
+Proof. exact child_presentation_step_nodes. Qed.
+Print Assumptions C04_child_presentation_step.
+
+Theorem C04_node_presentation_step :
+  forall bat vlt now line s m,
+    decode (proto_of (s_w s)) line = DecOk m -> m_cmd m = 0 -> m_child m = 255 -> m_node m <> 0 ->
+    w_nodes (s_w (snd (listen_step bat vlt now line s))) =
+    dset Z.eqb (w_nodes (s_w s)) (m_node m) (new_node (m_node m) (m_type m) (m_payload m)).
+Proof. exact node_presentation_step_nodes. Qed.
+Print Assumptions C04_node_presentation_step.
+
+(* battery level (0), sketch name (11), sketch version (12): the registry after the line is the
+   registry after the handler body of C04_battery / the sketch handlers, under every protocol *)
+Theorem C04_report_step :
+  forall bat vlt now line s m b,
+    decode (proto_of (s_w s)) line = DecOk m -> m_cmd m = 3 -> report_body (m_type m) = Some b ->
+    w_nodes (s_w (snd (listen_step bat vlt now line s))) = w_nodes (s_w (snd (run_body2 bat vlt now b no_super m s))).
+Proof. exact internal_report_nodes. Qed.
+Print Assumptions C04_report_step.
 
 (* which (class, method) pair serves which handler name: the bodies above are the
    ones the generated dispatch tables reach *)
